@@ -3,6 +3,8 @@ package main
 import (
 	"flag"
 	"fmt"
+	"golang.org/x/tools/go/ssa"
+	"golang.org/x/tools/go/ssa/ssautil"
 	"os"
 	"sort"
 	"strings"
@@ -189,6 +191,15 @@ func (p *Program) verifyKey(k string) *FuncResult {
 	if strings.HasPrefix(k, "globalwrites:") {
 		return p.globalWriteSweep(k, strings.Split(strings.TrimPrefix(k, "globalwrites:"), ","))
 	}
+	if strings.HasPrefix(k, "globaluse:") {
+		// globaluse:<pkg.var>:<f1,f2,...>  - only the listed functions mention the package-level variable
+		parts := strings.SplitN(strings.TrimPrefix(k, "globaluse:"), ":", 2)
+		var allow []string
+		if len(parts) == 2 {
+			allow = strings.Split(parts[1], ",")
+		}
+		return p.globalUseSweep(k, parts[0], allow)
+	}
 	sweep := false
 	if strings.HasPrefix(k, "sweep:") {
 		sweep = true
@@ -223,6 +234,56 @@ func cmdSelftest(args []string) { selftestMain(args) }
 
 // globalWriteSweep: every package-level variable of the module that is written (or whose address escapes)
 // outside package initialisation must be on the allow list. One obligation per variable found.
+// globalUseSweep: a static pass over go/ssa. Every function of the module (function literals count for their
+// enclosing function) that mentions the package-level variable must be on the allow list: one failing static
+// obligation per other function. Used for state that may only be touched by its lock-holding accessors.
+func (p *Program) globalUseSweep(key, gvar string, allow []string) *FuncResult {
+	vc := newVC(p, ModeInt)
+	res := &FuncResult{Key: key, VC: vc}
+	ok := map[string]bool{}
+	for _, a := range allow {
+		ok[strings.TrimSpace(a)] = true
+	}
+	users := map[string]bool{}
+	for fn := range ssautil.AllFunctions(p.ssaProg) {
+		if !strings.HasPrefix(funcPkgPath(fn), modPrefix) || len(fn.Blocks) == 0 {
+			continue
+		}
+		if (fn.Name() == "init" || strings.HasPrefix(fn.Name(), "init#")) && fn.Parent() == nil {
+			continue
+		}
+		for _, b := range fn.Blocks {
+			for _, in := range b.Instrs {
+				for _, op := range in.Operands(nil) {
+					if gl, isG := (*op).(*ssa.Global); isG && gl.Pkg != nil && relPkgPath(gl.Pkg.Pkg)+"."+gl.Name() == gvar {
+						root := fn
+						for root.Parent() != nil {
+							root = root.Parent()
+						}
+						users[funcKey(root)] = true
+					}
+				}
+			}
+		}
+	}
+	var names []string
+	for u := range users {
+		names = append(names, u)
+	}
+	sort.Strings(names)
+	short := "globaluse(" + gvar + ")"
+	for _, n := range names {
+		goal := "false"
+		if ok[n] {
+			goal = "true"
+		}
+		vc.oblige(&Obligation{Name: short + "#" + n, Kind: "static", PC: "true", Goal: goal, Text: n + " mentions the package-level variable " + gvar + ": must be one of its accessors (" + strings.Join(allow, ", ") + ")", Fn: key})
+	}
+	vc.oblige(&Obligation{Name: short + "#count", Kind: "static", PC: "true", Goal: "true", Text: fmt.Sprintf("%d functions mention %s", len(names), gvar), Fn: key})
+	res.Obls = vc.obls
+	return res
+}
+
 func (p *Program) globalWriteSweep(key string, allow []string) *FuncResult {
 	vc := newVC(p, ModeInt)
 	res := &FuncResult{Key: key, VC: vc}
